@@ -134,12 +134,13 @@ func doLocalSymbolize(prof *profile.Profile, fast, force bool, obj plugin.ObjToo
 	}
 
 	functions := map[profile.Function]*profile.Function{}
+	newFunctionID := profile.UnusedFunctionIDs(prof)
 	addFunction := func(f *profile.Function) *profile.Function {
 		if fp := functions[*f]; fp != nil {
 			return fp
 		}
 		functions[*f] = f
-		f.ID = uint64(len(prof.Function)) + 1
+		f.ID = newFunctionID()
 		prof.Function = append(prof.Function, f)
 		return f
 	}
